@@ -98,9 +98,13 @@ Definition bisect_left {A} (lt : A -> bool) (l : list A) : nat :=
 Definition insert_at {A} (i : nat) (x : A) (l : list A) : list A := firstn i l ++ x :: skipn i l.
 
 (* ---------- _ordered ---------- *)
-(* sorted(sorted(group, key=product)); `group` already in iteration order *)
+(* sorted(sorted(group, key=(product, core_start, core_end))); `group` already in iteration order.
+   core_start / core_end are Feature-style: first part's start / last part's end of the core (fstart / fend) *)
+Definition pre_lt (a b : proto) : bool :=
+  (pprod a <? pprod b) ||
+  ((pprod a =? pprod b) && pair_lt (fstart (pcore a), fend (pcore a)) (fstart (pcore b), fend (pcore b))).
 Definition ordered_list (group : list proto) : list proto :=
-  sort_by lt_pp (sort_by (fun a b => pprod a <? pprod b) group).
+  sort_by lt_pp (sort_by pre_lt group).
 Definition ordered_set (group : list proto) : list proto := ordered_list (iter group).
 
 (* ---------- _merge_sets ---------- *)
@@ -229,7 +233,13 @@ Fixpoint contained_until (core : loc) (limit : Z) (clusters : list proto) : list
               else if contains core (pcore c) then c :: contained_until core limit r
               else contained_until core limit r
   end.
-(* second component: protoclusters appended to the group (in order, possibly repeated) *)
+(* `if cluster not in group`: a cluster reached by both scans is appended once; `seen` = the group so far *)
+Fixpoint first_occ (seen : list proto) (l : list proto) : list proto :=
+  match l with
+  | [] => []
+  | c :: r => if pmem c seen then first_occ seen r else c :: first_occ (c :: seen) r
+  end.
+(* the group with the protoclusters appended to it (in order of the scans, each once) *)
 Definition hybrid_extend (w : option Z) (clusters : list proto) (group : list proto)
   : res (list proto) :=
   do core <- connect_locations (map pcore group) w;
@@ -239,7 +249,7 @@ Definition hybrid_extend (w : option Z) (clusters : list proto) (group : list pr
   let b := if is_compound core
            then contained_until core (match last_opt core with Some p => pe p | None => 0 end) clusters
            else [] in
-  Ok (group ++ a ++ b).
+  Ok (group ++ first_occ group (a ++ b)).
 
 Definition core_key_lt (a b : proto) : bool :=
   pair_lt (lstart (pcore a), lend (pcore a)) (lstart (pcore b), lend (pcore b)).
@@ -298,6 +308,10 @@ Definition cross_core_group (crossing : list (cand * loc)) : list proto :=
   fold_left (fun acc ck => fold_left (fun a p => set_add p a)
                                      (filter (fun p => bridges (pcore p)) (cmem (fst ck))) acc)
             crossing [].
+(* `if not core_group`: no single core crosses the origin (the joint core does so only by connection):
+   all members of the candidates whose joint core crosses *)
+Definition cross_all_group (crossing : list (cand * loc)) : list proto :=
+  fold_left (fun acc ck => fold_left (fun a p => set_add p a) (cmem (fst ck)) acc) crossing [].
 
 (* returns (found, groups') *)
 Definition find_cross_origin_interleaved (w : option Z) (cc : list (cand * loc)) (unassigned : list proto)
@@ -307,7 +321,8 @@ Definition find_cross_origin_interleaved (w : option Z) (cc : list (cand * loc))
   let crossing := filter (fun ck => cand_core_crosses (snd ck)) cc in
   if is_empty crossing then Ok ([], groups) else
   do core <- connect_locations (map snd crossing) w;
-  let core_group := cross_core_group crossing in
+  let core_group0 := cross_core_group crossing in
+  let core_group := if is_empty core_group0 then cross_all_group crossing else core_group0 in
   if is_empty core_group then Err E_Assert else
   let n := zlen unassigned in
   (* direction -1: indices -1, -2, ... while abs(index) < n *)
@@ -442,7 +457,7 @@ Definition formation_body (protos : list proto) (w : option Z) : res (list cand)
   let neigh_groups := find_neighbouring unassigned2 cands2 in
   do b3 <- build_candidates w K_NEIGHBOURING neigh_groups ex2 singles2;
   let '(cands3, ex3, singles3) := b3 in
-  do ss <- singles_go w ex3 (iter (unassigned2 ++ singles3));
+  do ss <- singles_go w ex3 (ordered_set (unassigned2 ++ singles3));
   Ok (cands3 ++ ss).
 
 Definition assigned_count (cands : list cand) : Z := set_size (concat (map cmem cands)).
@@ -456,11 +471,12 @@ Definition create_candidates (protos : list proto) (w : option Z) : res (list ca
     Ok (sort_by lt_cc cands)
   end.
 
-(* ---------- class of the recorded finding `joint_core_wraps_assert` ---------- *)
+(* ---------- class of the repaired finding `joint_core_wraps_assert` ---------- *)
 (* the hybrid pass ends with a candidate whose joint core was connected the short way across the origin
    although no member's core crosses it (only possible after two hybrid groups with the same coordinates
-   were united by build_candidates), and there is still an unassigned protocluster: `assert core_group`
-   in _find_cross_origin_interleaved then fails *)
+   were united by build_candidates), and there is still an unassigned protocluster: before the repair
+   `assert core_group` in _find_cross_origin_interleaved failed here; the repaired code takes all members of
+   those candidates as the core group.  Kept to recognise the class (regression statistics, fn 11 / 12). *)
 Definition class_joint_core_wraps (protos : list proto) (w : option Z) : bool :=
   match protos with
   | [] => false
